@@ -47,7 +47,7 @@ func main() {
 	rng := vh.NewRNG(*seed)
 	res := vh.NewResult()
 
-	nPoolsA, nDesignsB, nVals := 260, 14, 20
+	nPoolsA, nDesignsB, nVals := 260, 15, 20
 	if *tier == "thorough" {
 		nPoolsA, nDesignsB, nVals = 6200, 100, 20
 	}
